@@ -16,6 +16,7 @@ import (
 // Options of one check invocation.
 type Options struct {
 	Root         string // /verif
+	OutRoot      string // where evidence/ and replays/ are written (default Root)
 	Tier         string
 	Seed         uint64
 	AtlasBin     string
